@@ -394,3 +394,74 @@ func init() {
 	register(&Scenario{Name: "macat-send", Prop: "C20", Horizon: time.Hour, Weight: 2, Run: c20Send})
 	register(&Scenario{Name: "macat-reject", Prop: "C20", Horizon: time.Hour, Weight: 1, Run: c20Reject})
 }
+
+// c20Reply: macat as a replier (--rep / --respondent with --data or --file):
+// every request or survey it receives is printed as a record and answered with
+// exactly the configured bytes - also when that payload is empty.
+func c20Reply(w *W) {
+	pat := []struct{ flag, peer string }{{"--rep", "req"}, {"--respondent", "surveyor"}}[w.Choose(simrt.SShape, 2)]
+	payloads := []string{"the-answer", "", "x", "payload with spaces \x01\xfe"}
+	pl := payloads[w.Choose(simrt.SShape, len(payloads))]
+	how := w.Choose(simrt.SShape, 3) // --data X, --data=X, -D X
+	nq := 1 + w.Choose(simrt.SShape, 3)
+	w.SetShape("pattern", pat.flag)
+	w.SetShape("payload_len", len(pl))
+	w.SetShape("how", how)
+	addr := w.Addr("inproc")
+	var out bytes.Buffer
+	app := &macat.App{}
+	app.Initialize()
+	app.VerifSetStdout(&out)
+	args := []string{pat.flag, "--bind", addr, "--raw", "--recv-timeout", "2"}
+	switch how {
+	case 0:
+		args = append(args, "--data", pl)
+	case 1:
+		args = append(args, "--data="+pl)
+	default:
+		args = append(args, "-D", pl)
+	}
+	w.Op("macat %q", args)
+	run := w.Do("macat.Run", func() (interface{}, error) { return nil, app.Run(args...) })
+	w.Sleep(5 * time.Millisecond)
+	peer := w.Sock(pat.peer)
+	defer peer.Close()
+	mustSet(w, peer, mangos.OptionRecvDeadline, 500*time.Millisecond)
+	if pat.peer == "surveyor" {
+		mustSet(w, peer, mangos.OptionSurveyTime, 400*time.Millisecond)
+	}
+	if err := peer.Dial(addr); err != nil {
+		w.Failf("HARNESS/dial", "%v", err)
+		return
+	}
+	w.Sleep(30 * time.Millisecond)
+	for i := 0; i < nq && !w.Failed(); i++ {
+		q := fmt.Sprintf("question-%d", i)
+		if err := peer.Send([]byte(q)); err != nil {
+			w.Failf("HARNESS/send", "%v", err)
+			return
+		}
+		c := w.Do("peer.Recv", func() (interface{}, error) { return peer.Recv() })
+		if !c.Wait(time.Second) || c.Err != nil {
+			w.Failf("C20/reply-not-sent", "macat %q received %q and sent no reply within 500ms (%v); it was told to answer with %q", args, q, c.Err, pl)
+			return
+		}
+		if got := c.Val.([]byte); string(got) != pl {
+			w.Failf("C20/reply-bytes", "macat %q answered %q with %q; --data says %q", args, q, got, pl)
+			return
+		}
+		w.Delivery++
+		if pat.peer == "surveyor" {
+			w.Sleep(450 * time.Millisecond) // let the survey expire before the next one
+		}
+	}
+	if !run.Wait(10 * time.Second) {
+		w.Failf("C20/recv-timeout-ignored", "macat %q still running 10s after the last request", args)
+		return
+	}
+	w.Probe("replier-answered-with-configured-bytes")
+}
+
+func init() {
+	register(&Scenario{Name: "macat-reply", Prop: "C20", Horizon: time.Hour, Weight: 1, Run: c20Reply})
+}
